@@ -107,7 +107,7 @@ func (d *Destination) Open(ctx context.Context) (err error) {
 			// persist connector in the next batch to store last active config
 			err := d.Instance.persister.Persist(ctx, d.Instance, func(err error) {
 				if err != nil {
-					d.errs <- err
+					d.reportAsyncError(err)
 				}
 			})
 			if err != nil {
@@ -135,6 +135,16 @@ func (d *Destination) Open(ctx context.Context) (err error) {
 	}
 
 	return nil
+}
+
+// reportAsyncError surfaces a failed state flush to the node via errs without
+// ever blocking, see Source.reportAsyncError.
+func (d *Destination) reportAsyncError(err error) {
+	select {
+	case d.errs <- err:
+	default:
+		d.Instance.logger.Err(context.Background(), err).Msg("could not persist destination connector (an earlier error is still pending delivery to the node)")
+	}
 }
 
 func (d *Destination) Stop(ctx context.Context, lastPosition opencdc.Position) error {
